@@ -214,7 +214,7 @@ TEXTFORMS = ("ARepr", "AStr", "AUnrep")
 
 
 def oracle_class(enc, n, t):
-    """class / argument clause for one loaded node t against original node n; returns a complaint or None"""
+    """class / argument clause for one loaded node t against original node n; returns (category, detail) or None"""
     k, a = t["k"], t["a"]
     coder = "pickle" if enc == "pickle" else "json"
     representable = all(m["repr_" + coder] for m in n["args"])
@@ -224,48 +224,49 @@ def oracle_class(enc, n, t):
         full = full and n["exc_rt_pickle"] and n["native_same_class"] and n["native"] == ["AEq"] * len(n["args"])
     if full:
         if k != "KOrig":
-            return "importable, reconstructible class with representable arguments came back as %s" % (k,)
+            return "importable, reconstructible class with representable arguments did not come back as itself", str(k)
         if a != ["AEq"] * len(n["args"]):
-            return "original class but arguments differ: %s" % (a,)
+            return "original class came back with different arguments", str(a)
         return None
     if k == "KOrig":
         pass
     elif k in ("KSynth", "KSynthSer", "KGeneric", "KWrap"):
         if not t["named"]:
-            return "stand-in %s does not carry the original class name" % k
+            return "stand-in does not carry the original class name", k
     elif isinstance(k, list) and k[0] == "KBase":
         if enc != "pickle":
-            return "base-class stand-in on a JSON path"
+            return "loaded error is not one of the listed stand-ins", "base class on a JSON path"
     else:
-        return "loaded error is not one of the listed stand-ins: %s" % (k,)
+        return "loaded error is not one of the listed stand-ins", str(k)
     if isinstance(a, list) and (k in ("KSynth", "KSynthSer", "KWrap") or (k == "KOrig" and n["own_recon"])):
         for f, m in zip(a, n["args"]):
             if not m[coder + "_encodable"] and f not in TEXTFORMS:
-                return "un-encodable argument not replaced by its text form: %s" % f
+                return "un-encodable argument not replaced by its text form", f
     return None
 
 
 def oracle_tree(enc, nodes, t, i, path):
     """class clause at every node, chain clause (JSON) along every duplicate-free path"""
     if t["id"] != i:
-        return "loaded node does not correspond to original node %r: %s" % (i, t.get("why", t["id"]))
+        return "loaded link does not correspond to a link of the original", "at node %r: %s" % (i, t.get("why", t["id"]))
     n = nodes[i]
     bad = oracle_class(enc, n, t)
     if bad:
-        return "node %d: %s" % (i, bad)
+        return bad[0], "node %d: %s" % (i, bad[1])
     if enc == "pickle":
         return None          # links are demanded for JSON only
     if t["s"] != n["suppress"]:
-        return "node %d: suppress-context flag %r, original %r" % (i, t["s"], n["suppress"])
+        return "suppress-context flag not preserved", "node %d: %r, original %r" % (i, t["s"], n["suppress"])
     p = path + [i]
     for what, j, sub in (("cause", n["cause"], t["c"]),
                          ("context", None if n["suppress"] else n["context"], t["x"])):
         if j is None or j in p:
             if sub is not None:
-                return "node %d: %s link present, expected none (%s)" % (i, what, "cut: on the path" if j is not None else "absent or suppressed")
+                return ("%s link present where none is expected" % what,
+                        "node %d (%s)" % (i, "target is on the path" if j is not None else "absent or suppressed"))
         else:
             if sub is None:
-                return "node %d: %s link to node %d lost" % (i, what, j)
+                return "%s link lost" % what, "node %d -> node %d" % (i, j)
             bad = oracle_tree(enc, nodes, sub, j, p)
             if bad:
                 return bad
@@ -273,18 +274,18 @@ def oracle_tree(enc, nodes, t, i, path):
 
 
 def oracle(case, obs, enc):
-    """None if the statement holds for this encoding, else (what, stage)"""
+    """None if the statement holds for this encoding, else (category, detail, stage)"""
     o = obs["enc"][enc]
     if o["o"] == "store_fail":
-        return "storing the result raised %s" % o["exc"], "store"
+        return "storing the result raised", o["exc"], "store"
     if o["o"] in ("load_fail", "security"):
-        return "loading the result raised %s" % o["exc"], "load"
+        return "loading the result raised", o["exc"], "load"
     if o["o"] == "notexc":
-        return "the loaded error is not an exception (%s)" % o["type"], "load"
+        return "the loaded error is not an exception", o["type"], "load"
     if o["o"] != "loaded":
-        return "round trip did not happen: %s" % o["o"], "store"
+        return "the round trip did not happen", o["o"], "store"
     bad = oracle_tree(enc, obs["nodes"], o["t"], 0, [])
-    return (bad, "compare") if bad else None
+    return (bad[0], bad[1], "compare") if bad else None
 
 
 def sig_of(case, obs, enc, stage):
@@ -402,10 +403,10 @@ def explore(ctx, rep, cases, label, use_oracle=True):
                 continue
             bad = oracle(c, o, enc)
             if bad:
-                what, stage = bad
+                what, detail, stage = bad
                 nfail += 1
                 rep.fail("%s round trip: %s" % ({"text": "JSON-text", "dict": "JSON-dict", "pickle": "pickle"}[enc], what),
-                         dict(c, enc=enc), observed=e,
+                         dict(c, enc=enc), observed=dict(e, detail=detail),
                          expected="store and load never fail; original class + equal args when importable, reconstructible "
                                   "and representable, else a named stand-in; JSON keeps cause / unsuppressed context / suppress "
                                   "along duplicate-free paths", sig=sig_of(c, o, enc, stage))
@@ -458,9 +459,9 @@ def replay(ctx, path):
         print("implementation[%s]:" % enc, json.dumps(obs["enc"][enc]))
         bad = oracle(c, obs, enc) if c.get("family") != "shadow" else None
         if bad:
-            f = dict(sig=sig_of(c, obs, enc, bad[1]))
+            f = dict(sig=sig_of(c, obs, enc, bad[2]))
             known = [k for k, p in SIGNATURES.items() if p(f)]
-            print("  statement VIOLATED: %s%s" % (bad[0], (" [known finding %s]" % known[0]) if known else ""))
+            print("  statement VIOLATED: %s (%s)%s" % (bad[0], bad[1], (" [known finding %s]" % known[0]) if known else ""))
             rc = 1
         else:
             print("  statement holds")
